@@ -16,6 +16,7 @@ import (
 	"github.com/EliCDavis/polyform/math/trs"
 	"github.com/EliCDavis/polyform/modeling"
 	"github.com/EliCDavis/polyform/modeling/meshops"
+	"github.com/EliCDavis/polyform/modeling/primitives"
 	"github.com/EliCDavis/vector/vector2"
 	"github.com/EliCDavis/vector/vector3"
 	"github.com/EliCDavis/vector/vector4"
@@ -505,7 +506,7 @@ func (c *Ctx) applyOp(name string, m modeling.Mesh) opRun {
 		if c.Rng.Intn(4) == 0 {
 			box = geometry.NewAABB(vector3.Zero[float64](), vector3.New(1e6, 1e6, 1e6))
 		}
-		return runOp(name, fmt.Sprintf("%s %s %s", attr, bbF(box), ms), false, func() []modeling.Mesh {
+		return runOp(name, fmt.Sprintf("%s %s %s", attr, mbbF(box), ms), false, func() []modeling.Mesh {
 			return one(meshops.CropFloat3Attribute(m, attr, box))
 		})
 	case "removenull":
@@ -530,8 +531,8 @@ func (c *Ctx) applyOp(name string, m modeling.Mesh) opRun {
 		})
 	case "translate":
 		attr := c.pickV3Attr(m)
-		t := c.v3()
-		return runOp(name, fmt.Sprintf("%s %s %s", attr, vF(t), ms), false, func() []modeling.Mesh {
+		t := c.mv3()
+		return runOp(name, fmt.Sprintf("%s %s %s", attr, mvF(t), ms), false, func() []modeling.Mesh {
 			if attr == modeling.PositionAttribute && c.Rng.Intn(2) == 0 {
 				return one(m.Translate(t))
 			}
@@ -539,30 +540,57 @@ func (c *Ctx) applyOp(name string, m modeling.Mesh) opRun {
 		})
 	case "scale":
 		attr := c.pickV3Attr(m)
-		o, a := c.v3(), c.v3()
-		return runOp(name, fmt.Sprintf("%s %s %s %s", attr, vF(o), vF(a), ms), false, func() []modeling.Mesh {
+		o, a := c.mv3(), c.mv3()
+		return runOp(name, fmt.Sprintf("%s %s %s %s", attr, mvF(o), mvF(a), ms), false, func() []modeling.Mesh {
 			return one(meshops.ScaleAttribute3D(m, attr, o, a))
 		})
 	case "meshscale":
-		a := c.v3()
-		return runOp(name, fmt.Sprintf("%s %s", vF(a), ms), false, func() []modeling.Mesh { return one(m.Scale(a)) })
+		a := c.mv3()
+		return runOp(name, fmt.Sprintf("%s %s", mvF(a), ms), false, func() []modeling.Mesh { return one(m.Scale(a)) })
 	case "rotate":
 		attr := c.pickV3Attr(m)
-		q := c.quat()
-		return runOp(name, fmt.Sprintf("%s %s %s", attr, qF(q), ms), false, func() []modeling.Mesh {
+		q := c.mquat()
+		return runOp(name, fmt.Sprintf("%s %s %s", attr, mqF(q), ms), false, func() []modeling.Mesh {
 			if attr == modeling.PositionAttribute && c.Rng.Intn(2) == 0 {
 				return one(m.Rotate(q))
 			}
 			return one(meshops.RotateAttribute3D(m, attr, q))
 		})
 	case "applytrs":
-		p, q, s := c.v3(), c.quat(), c.v3()
+		p, q, s := c.mv3(), c.mquat(), c.mv3()
 		t := trs.New(p, q, s)
-		return runOp(name, fmt.Sprintf("%s %s %s %s", vF(p), qF(q), vF(s), ms), false, func() []modeling.Mesh {
+		return runOp(name, fmt.Sprintf("%s %s %s %s", mvF(p), mqF(q), mvF(s), ms), false, func() []modeling.Mesh {
 			return one(m.ApplyTRS(t))
 		})
 	}
 	panic("unknown op " + name)
+}
+
+func (c *Ctx) startMesh() modeling.Mesh {
+	switch c.Rng.Intn(8) {
+	case 0:
+		c.Note("start:sphere")
+		return primitives.UVSphere(1, 2+c.Rng.Intn(3), 3+c.Rng.Intn(3))
+	case 1:
+		c.Note("start:cylinder")
+		return primitives.Cylinder{Sides: 3 + c.Rng.Intn(3), Height: 1, Radius: 1}.ToMesh()
+	case 2:
+		c.Note("start:cube")
+		return primitives.Cube{Height: 1, Width: 2, Depth: 1, UVs: primitives.DefaultCubeUVs()}.UnweldedQuads().
+			SetMaterials(c.genMaterials(12))
+	default:
+		c.Note("start:generated")
+		return c.genMesh(meshGen{topo: topoAll, needPos: c.Rng.Intn(3) != 0, maxVerts: 20, materials: true})
+	}
+}
+
+// filter on a topology with multi-index primitives breaks primitives apart; see notes/C02.md.
+func filterApplicable(m modeling.Mesh) bool {
+	switch m.Topology() {
+	case modeling.PointTopology, modeling.LineStripTopology, modeling.LineLoopTopology:
+		return true
+	}
+	return false
 }
 
 // noteMesh records the shape class of an input for the distribution report
@@ -579,4 +607,23 @@ func sortedKeys(m map[string]int) []string {
 	return out
 }
 
-var _ = quaternion.Identity
+// float helpers (own copies: the check builds each property's harness from its own files only)
+func (c *Ctx) mfl() float64 {
+	switch c.Rng.Intn(6) {
+	case 0:
+		return float64(c.Rng.Intn(9) - 4)
+	case 1:
+		return (c.Rng.Float64()*2 - 1) * 1000
+	case 2:
+		return (c.Rng.Float64()*2 - 1) * 1e-3
+	default:
+		return c.Rng.Float64()*20 - 10
+	}
+}
+func (c *Ctx) mv3() vector3.Float64 { return vector3.New(c.mfl(), c.mfl(), c.mfl()) }
+func (c *Ctx) mquat() quaternion.Quaternion {
+	return quaternion.New(c.mv3(), c.mfl())
+}
+func mvF(v vector3.Float64) string        { return Fs(v.X(), v.Y(), v.Z()) }
+func mqF(q quaternion.Quaternion) string { return Fs(q.Dir().X(), q.Dir().Y(), q.Dir().Z(), q.W()) }
+func mbbF(b geometry.AABB) string        { return mvF(b.Center()) + " " + mvF(b.Size().Scale(0.5)) }
